@@ -155,7 +155,9 @@ func cmdPip(args []string) error {
 	for _, c := range cases {
 		o := pObs{Universe: c.Universe, Root: c.Root, Graph: pGraph{Nodes: []pNode{}, Edges: []pEdge{}}, Model: c.Model}
 		lc := loadPipUniverse(c, tb)
-		g, err := pypi.NewResolver(lc).Resolve(ctx, resolve.VersionKey{PackageKey: resolve.PackageKey{System: resolve.PyPI, Name: c.Root.Name}, VersionType: resolve.Concrete, Version: tb.Versions[c.Root.V-1]})
+		g, err := guarded(func() (*resolve.Graph, error) {
+			return pypi.NewResolver(lc).Resolve(ctx, resolve.VersionKey{PackageKey: resolve.PackageKey{System: resolve.PyPI, Name: c.Root.Name}, VersionType: resolve.Concrete, Version: tb.Versions[c.Root.V-1]})
+		})
 		if err != nil || g == nil {
 			if err != nil {
 				o.Err = err.Error()
